@@ -11,7 +11,7 @@ CLAIMED = {
    note='Trusts CPython exception semantics and that __render_with_namespace__ hands the live TemplateDict to call-backs (existing seam). RecursionError at arbitrary depth and asynchronous exceptions between two lines are out of scope.'),
  'C09': dict(engine='A-environment', level='exploration', ref='4 (C09)',
    technique='deterministic simulation: conditional programs run against volatile / raising / armed-but-lazy scripted call-backs; recorded invocation history compared with a reference interpreter',
-   text='Seeded exploration of condition chains x truth scripts x armed faults; oracle is the ordered invocation history and output of a small reference interpreter, cut at the first fired fault.',
+   text='Seeded exploration of condition chains x truth scripts x armed faults; oracle is the ordered invocation history and output of a small reference interpreter; under a fired fault the comparison is cut after it and resumed only when both runs reach the same enclosing dtml-try handler marker.',
    note='Trusts the reference interpreter for the conditional sub-language (second implementation, restricted to what C09 states).'),
  'C12': dict(engine='A-stream', level='exploration', ref='4 (C12)',
    technique='deterministic simulation of the sequence producer: counting, unbounded, early-ending and failing iterators / lazy sequences behind a batched dtml-in; pull-count bound checked per run',
@@ -28,7 +28,7 @@ CLAIMED = {
  'C18': dict(engine='B-scheduler', level='exploration', ref='4 (C18)',
    technique='deterministic simulation of caller threads: real threads run one at a time under a seeded baton-passing scheduler with sys.settrace line pre-emption inside the package and simulated locks; per-thread results compared with solo runs',
    text='Seeded search over schedules (single and double pre-emption at every profile line, PCT, random walk, write-biased) of 2-3 threads on one shared template; differential oracle against the same call run alone on a fresh template.',
-   note='Pre-emption granularity is the source line (opcode in a fraction of runs); C-level atomicity under the GIL is assumed.'),
+   note='Pre-emption granularity is the source line plus a yield inside every scripted call-back (opcode tracing segfaults CPython 3.12.1 and is not used); C-level atomicity under the GIL is assumed.'),
  'C20': dict(engine='C-browser', level='exploration', ref='4 (C20)',
    technique='deterministic simulation of browser + network against the stateless dtml-tree server: seeded click histories with reload / stale-link / lost-cookie faults, checked against a set-of-expanded-paths model and page-cookie consistency',
    text='Seeded exploration of tree shapes x id alphabets x click histories x network faults; invariants checked after every response (codec round trip, page == state in cookie, one correct link per node, state evolution against a set model).',
@@ -83,7 +83,7 @@ m = {
  ],
  'checks': checks,
  'not_applicable': na,
- 'notes': 'All checks: ./check <property> quick|thorough (cwd /verif); exit 0 held, 1 VIOLATION (replay file under replays/), 2 harness error. VERIF_SEED selects the base seed. Fix commits in /repo: 2d359e1 72e22ca e754aab c0834ce (see KNOWN_FINDINGS.txt). Seeded defects used for sensitivity are under seeded/.',
+ 'notes': 'All checks: ./check <property> quick|thorough (cwd /verif); exit 0 held, 1 VIOLATION (replay file under replays/), 2 harness error. VERIF_SEED selects the base seed. Fix commits in /repo: 2d359e1 72e22ca e754aab c0834ce (see KNOWN_FINDINGS.txt). Seeded defects used for sensitivity are under seeded/ (46 confirmed changes, DESIGN.md 12.2), behaviour-preserving edits that must stay green under benign/; ./check selftest determinism|sensitivity re-run both catalogues.',
 }
 json.dump(m, open(V + '/MANIFEST.json', 'w'), indent=1)
 print('claimed:', [c['property_id'] for c in checks])
